@@ -97,6 +97,14 @@ Definition pydyf_call (tagf : val -> string) (f : string) (args : list val) : va
     | [s; tag; pl] => app_stream s [VList [VStr "/tag"]; pl; VStr "b'BDC'"]
     | _ => VErr "TypeError"
     end
+  else if String.eqb f "super.set_matrix" then
+    (* pydyf.Stream.set_matrix(a, b, c, d, e, f) appends the six operands and b'cm': the item Tcm (a b c d e f),
+       written with the rows of Matrix(a, b, c, d, e, f) as etok does *)
+    match args with
+    | [s; a; b; c; d; e; f'] =>
+        app_stream s [VList [VStr "cm"; VList [VList [a; b; vz 0]; VList [c; d; vz 0]; VList [e; f'; vz 1]]]]
+    | _ => VErr "TypeError"
+    end
   else if String.eqb f "pydyf.Dictionary" then
     (* pydyf.Dictionary({'MCID': n}): the property list of a marked-content sequence, the item Tprops n *)
     match args with [VList [VList [VStr "MCID"; n]]] => VList [VStr "MCID"; n] | _ => VErr "TypeError" end
